@@ -34,7 +34,7 @@ Preds == {"lt3", "even", "pos"}
 Mn(a, b) == IF a < b THEN a ELSE b
 
 \* ---- sources -------------------------------------------------------------------------------
-Sources == {"arr", "empty", "count", "succ", "const", "cycle", "rep_empty", "rep3", "range"}
+Sources == {"arr", "empty", "count", "succ", "const", "cycle", "rep_empty", "rep3", "range", "obs"}
 SrcText(s) ==
     CASE s = "arr" -> "[3, 1, 2].to_generator()"
       [] s = "empty" -> "range(1, 1).to_generator()"
@@ -45,7 +45,8 @@ SrcText(s) ==
       [] s = "rep_empty" -> "repeat(range(1, 1).to_generator())"
       [] s = "rep3" -> "repeat([1, 2].to_generator(), 3)"
       [] s = "range" -> "range(6).to_generator()"
-Src(s, H) ==
+      [] s = "obs" -> "successors(0, (x: int) -> {display(x) + 1})"     \* every pull beyond the first prints: pulls are observable
+SrcBase(s, H) ==
     CASE s = "arr" -> [pre |-> <<3, 1, 2>>, inf |-> FALSE, ety |-> "int"]
       [] s = "empty" -> [pre |-> <<>>, inf |-> FALSE, ety |-> "int"]
       [] s = "count" -> [pre |-> [i \in 1..H |-> i - 1], inf |-> TRUE, ety |-> "int"]
@@ -55,6 +56,12 @@ Src(s, H) ==
       [] s = "rep_empty" -> [pre |-> <<>>, inf |-> FALSE, ety |-> "int"]     \* repeating nothing yields nothing, and ends
       [] s = "rep3" -> [pre |-> <<1, 2, 1, 2, 1, 2>>, inf |-> FALSE, ety |-> "int"]
       [] s = "range" -> [pre |-> <<0, 1, 2, 3, 4, 5>>, inf |-> FALSE, ety |-> "int"]
+      [] s = "obs" -> [pre |-> [i \in 1..H |-> i - 1], inf |-> TRUE, ety |-> "int"]
+\* provenance: prov[i] = number of source elements that must have been pulled to produce element i;
+\* endp = number pulled when the end of the stream is learnt (finite streams only)
+Src(s, H) == LET b == SrcBase(s, H)
+             IN [pre |-> b.pre, inf |-> b.inf, ety |-> b.ety, prov |-> [i \in 1..Len(b.pre) |-> i],
+                 endp |-> IF b.inf THEN -1 ELSE Len(b.pre)]
 
 \* ---- adaptors ------------------------------------------------------------------------------
 RECURSIVE TakeWhileN(_, _, _), SkipUntilN(_, _, _), Sums(_, _, _), Groups(_, _), Distinct(_, _), Cycle(_, _)
@@ -122,6 +129,45 @@ Apply(ad, s, H) ==
       [] ad.op = "addR" -> IF s.inf THEN s ELSE [s EXCEPT !.pre = xs \o <<9>>]
       [] ad.op = "addL" -> [s EXCEPT !.pre = <<9>> \o xs]
 
+\* ---- provenance of each adaptor (C16: only the needed prefix of the source is evaluated) ----------
+RECURSIVE Passing(_, _, _), FirstOcc(_, _, _), GroupEnds(_, _)
+Passing(p, xs, i) == IF i > Len(xs) THEN <<>> ELSE (IF Pred(p, xs[i]) THEN <<i>> ELSE <<>>) \o Passing(p, xs, i + 1)
+FirstOcc(xs, i, seen) == IF i > Len(xs) THEN <<>>
+                         ELSE IF xs[i] \in seen THEN FirstOcc(xs, i + 1, seen)
+                         ELSE <<i>> \o FirstOcc(xs, i + 1, seen \cup {xs[i]})
+\* position (in xs) of the element that closes each maximal run: the first element of the next run,
+\* Len(xs) + 1 (= the end of the stream) for the last run
+GroupEnds(xs, i) == IF i > Len(xs) THEN <<>>
+                    ELSE IF i = Len(xs) \/ xs[i + 1] # xs[i] THEN <<i + 1>> \o GroupEnds(xs, i + 1)
+                    ELSE GroupEnds(xs, i + 1)
+\* idx: for each output element the position in the input stream it needs (0 = none, Len + 1 = its end)
+At(s, j) == IF j = 0 THEN 0 ELSE IF j > Len(s.prov) THEN s.endp ELSE s.prov[j]
+Through(s, idx, endp) == [prov |-> [i \in 1..Len(idx) |-> At(s, idx[i])], endp |-> endp]
+Iota(a, b) == [i \in 1..(IF b >= a THEN b - a + 1 ELSE 0) |-> a + i - 1]
+ApplyProv(ad, s, H) ==
+    LET xs == s.pre  n == Len(xs) IN
+    CASE ad.op \in {"map", "aggregate"} -> Through(s, Iota(1, n), s.endp)
+      [] ad.op = "filter" -> Through(s, Passing(ad.p, xs, 1), s.endp)
+      [] ad.op = "take_while" ->
+            LET m == TakeWhileN(ad.p, xs, 1) IN
+            IF m < n THEN Through(s, Iota(1, m), s.prov[m + 1])       \* the failing element is pulled, then the stream ends
+            ELSE Through(s, Iota(1, n), s.endp)
+      [] ad.op = "skip_until" -> Through(s, Iota(SkipUntilN(ad.p, xs, 1) + 1, n), s.endp)
+      [] ad.op = "take" -> IF ad.k <= n THEN Through(s, Iota(1, ad.k), IF ad.k = 0 THEN 0 ELSE s.prov[ad.k])
+                           ELSE Through(s, Iota(1, n), s.endp)
+      [] ad.op = "skip" -> Through(s, Iota(Mn(ad.k, n) + 1, n), s.endp)
+      [] ad.op = "repeat" -> IF s.inf \/ xs = <<>> THEN Through(s, Iota(1, n), s.endp)
+                             ELSE [prov |-> Cycle(s.prov, H), endp |-> -1]
+      [] ad.op = "repeat_n" -> IF s.inf THEN Through(s, Iota(1, n), s.endp) ELSE [prov |-> s.prov \o s.prov, endp |-> s.endp]
+      [] ad.op = "chunks" -> LET c == IF s.inf THEN n \div ad.k ELSE (n + ad.k - 1) \div ad.k
+                             IN Through(s, [i \in 1..c |-> Mn(i * ad.k, n)], s.endp)
+      [] ad.op = "windows" -> Through(s, [i \in 1..(IF n < ad.k THEN 0 ELSE n - ad.k + 1) |-> i + ad.k - 1], s.endp)
+      [] ad.op = "distinct" -> Through(s, FirstOcc(xs, 1, {}), s.endp)
+      [] ad.op = "group" -> LET e == GroupEnds(xs, 1) IN Through(s, IF s.inf THEN DropLast(e) ELSE e, s.endp)
+      [] ad.op = "addR" -> IF s.inf THEN Through(s, Iota(1, n), s.endp) ELSE Through(s, Append(Iota(1, n), n + 1), s.endp)
+      [] ad.op = "addL" -> Through(s, <<0>> \o Iota(1, n), s.endp)
+Step(ad, s, H) == LET t == Apply(ad, s, H)  p == ApplyProv(ad, s, H) IN [t EXCEPT !.prov = p.prov, !.endp = p.endp]
+
 \* ---- sinks ---------------------------------------------------------------------------------
 IntSinks == {"sum", "first_even", "any_lt3", "all_pos", "count_even", "reduce", "nth1_even", "contains2"}
 AnySinks == {"to_array", "len", "last", "get0", "get4", "take3"}
@@ -161,11 +207,29 @@ Verdict(k, s) ==
       [] k = "contains2" -> IF \E i \in 1..n : xs[i] = 2 THEN Val(TRUE) ELSE IF s.inf THEN Diverge ELSE Val(FALSE)
       [] k = "all_pos" -> IF \E i \in 1..n : ~Pos(xs[i]) THEN Val(FALSE) ELSE IF s.inf THEN Diverge ELSE Val(TRUE)
 
+\* source pulls the demand needs (meaningful when the verdict is a value or an error)
+FirstIdx(xs, P(_)) == IF \E i \in 1..Len(xs) : P(xs[i]) THEN CHOOSE i \in 1..Len(xs) : P(xs[i]) /\ \A j \in 1..(i - 1) : ~P(xs[j]) ELSE 0
+Need(k, s) ==
+    LET xs == s.pre  n == Len(xs) IN
+    CASE k \in {"to_array", "len", "sum", "last", "reduce", "count_even"} -> s.endp
+      [] k = "get0" -> IF n >= 1 THEN s.prov[1] ELSE s.endp
+      [] k = "get4" -> IF n >= 5 THEN s.prov[5] ELSE s.endp
+      [] k = "take3" -> IF n >= 3 THEN s.prov[3] ELSE s.endp
+      [] k = "first_even" -> LET i == FirstIdx(xs, Even) IN IF i > 0 THEN s.prov[i] ELSE s.endp
+      [] k = "nth1_even" -> LET m == Passing("even", xs, 1) IN IF Len(m) >= 2 THEN s.prov[m[2]] ELSE s.endp
+      [] k = "any_lt3" -> LET i == FirstIdx(xs, Lt3) IN IF i > 0 THEN s.prov[i] ELSE s.endp
+      [] k = "contains2" -> LET i == FirstIdx(xs, LAMBDA x : x = 2) IN IF i > 0 THEN s.prov[i] ELSE s.endp
+      [] k = "all_pos" -> LET i == FirstIdx(xs, LAMBDA x : ~Pos(x)) IN IF i > 0 THEN s.prov[i] ELSE s.endp
+\* look-ahead an adaptor may legitimately take beyond what was asked of it (a constant per adaptor)
+RECURSIVE Slack(_, _)
+Slack(ads, i) == IF i > Len(ads) THEN 0
+                 ELSE (IF ads[i].op \in {"chunks", "windows"} THEN ads[i].k + 1 ELSE 1) + Slack(ads, i + 1)
+
 \* ---- a case ---------------------------------------------------------------------------------
 RECURSIVE Run(_, _, _, _)
-Run(s, ads, i, H) == IF i > Len(ads) THEN s ELSE Run(Apply(ads[i], s, H), ads, i + 1, H)
+Run(s, ads, i, H) == IF i > Len(ads) THEN s ELSE Run(Step(ads[i], s, H), ads, i + 1, H)
 RECURSIVE WellTyped(_, _, _)
-WellTyped(s, ads, i) == i > Len(ads) \/ (Applicable(ads[i], s) /\ WellTyped(Apply(ads[i], s, 8), ads, i + 1))
+WellTyped(s, ads, i) == i > Len(ads) \/ (Applicable(ads[i], s) /\ WellTyped(Step(ads[i], s, 8), ads, i + 1))
 
 RECURSIVE TextOf(_, _, _)
 TextOf(t, ads, i) ==
@@ -189,9 +253,15 @@ Emit ==
     LET v1 == Verdict(sink, Run(Src(src, H1), ads, 1, H1))
         v2 == Verdict(sink, Run(Src(src, H2), ads, 1, H2))
         t == TextOf(SrcText(src), ads, 1) \o SinkText(sink)
-    IN (v1 = v2) => PrintT(<<"CASE", ToJson([src |-> t, verdict |-> v1, n |-> Len(ads), sink |-> sink])>>)
+        s1 == Run(Src(src, H1), ads, 1, H1)
+        s2 == Run(Src(src, H2), ads, 1, H2)
+        need == IF v1.v = "diverge" THEN -1 ELSE Need(sink, s1)
+    IN (v1 = v2 /\ (v1.v # "diverge" => Need(sink, s2) = need)) =>
+          PrintT(<<"CASE", ToJson([src |-> t, verdict |-> v1, n |-> Len(ads), sink |-> sink, source |-> src,
+                                   need |-> need, slack |-> Slack(ads, 1) + 1])>>)
 
 \* the model's own sanity: a finite stream never diverges, a diverging verdict needs an infinite stream
+ProvAligned == LET s == Run(Src(src, H1), ads, 1, H1) IN Len(s.prov) = Len(s.pre)
 FiniteNeverDiverges ==
     LET s == Run(Src(src, H1), ads, 1, H1) IN (~s.inf) => Verdict(sink, s).v # "diverge"
 =============================================================================
